@@ -436,6 +436,9 @@ def decode_dataclass(ti, d, tvmap, o):
         if val is None and nullable(ft, f, tv):
             kwargs[n] = None
             continue
+        if getattr(f.metadata.get("deserialize"), "__name__", "") == "pass_through":
+            kwargs[n] = val  # documented field option: the value is taken over unchanged
+            continue
         try:
             kwargs[n] = ref_decode(ft, val, tv, o)
         except RefError as e:
